@@ -64,6 +64,24 @@ def Expr.span : Expr → Span
   | .term _ _ _ s | .nonterm _ _ s | .cmd _ _ _ s | .seq _ s | .alt _ s | .fb _ s | .opt _ s
   | .many1 _ s | .dd _ _ s | .sub _ _ s => s
 
+mutual
+/-- the same tree with every source location erased (spans never influence meaning) -/
+def Expr.eraseSpans : Expr → Expr
+  | .term t d l _ => .term t d l default
+  | .nonterm n l _ => .nonterm n l default
+  | .cmd c a l _ => .cmd c a l default
+  | .seq cs _ => .seq (ExprL.eraseSpans cs) default
+  | .alt cs _ => .alt (ExprL.eraseSpans cs) default
+  | .fb cs _ => .fb (ExprL.eraseSpans cs) default
+  | .opt c _ => .opt (Expr.eraseSpans c) default
+  | .many1 c _ => .many1 (Expr.eraseSpans c) default
+  | .dd c d _ => .dd (Expr.eraseSpans c) d default
+  | .sub c l _ => .sub (Expr.eraseSpans c) l default
+def ExprL.eraseSpans : ExprL → ExprL
+  | .nil => .nil
+  | .cons e es => .cons (Expr.eraseSpans e) (ExprL.eraseSpans es)
+end
+
 inductive Stmt where
   /-- `name expr;` -/
   | call (name : String) (nameSp : Span) (e : Expr)
